@@ -6,7 +6,7 @@ LEVEL = "proof"
 EXPLANATION = (
     "All contracts are phrased over canon(), the canonical big-endian view, which hides the state representation; equality "
     "of results across configurations is transitivity through the one specification. Re-proved here per configuration: the "
-    "permutation contract under each C backend (64-bit, direct-xor variant, 32-bit bit-sliced) and for the lifted x86-64 assembly; the pre-computed initial "
+    "permutation contract under each C backend (64-bit, direct-xor variant, 32-bit bit-sliced) and for the lifted assembly backends (x86-64, i386, RISC-V x3, AArch64, ARMv6/v7-M/v6-M, Xtensa, m68k, AVR5); the pre-computed initial "
     "values of XOF/XOFA/HASH/HASHA and the fixed-length tables in each of the three encodings (uint64[5], bit-sliced "
     "uint32[10], uint8[40]) equal p^12 of the specification's IV block, i.e. what the generic path computes; the masked-word "
     "toolkit and masked keys for every share count (MAX_SHARES 2, 3, 4; key shares 2, 3, 4); and, in the build that enables "
@@ -14,7 +14,7 @@ EXPLANATION = (
     "unreachable for every sampled (count, mode, length)."
 )
 ASSUMPTIONS = [
-    "the x86-64 assembly permutation (default backend on this host) is re-proved through the instruction lifter of C08 (its instruction table is trusted); the other assembly backends and the masked assembly are not covered; the higher-level compositions (C01-C07) are proved in the 64-bit C configuration and rely on the per-backend permutation/byte-operation contracts for the others",
+    "the assembly permutations of all twelve backends are re-proved through the instruction lifters of C08 (their instruction tables are trusted; quick tier: x86-64, RISC-V, AArch64, Xtensa; thorough: all); masked assembly other than x86-64 is not covered; the higher-level compositions (C01-C07) are proved in the 64-bit C configuration and rely on the per-backend permutation/byte-operation contracts for the others",
     "acquire/release groups: the permutation is a frame-only stub; entry (count, mode, length) triples are sampled",
 ]
 
@@ -46,6 +46,11 @@ def groups(tier):
             g.name = g.name.replace("c08.", "c09.")
             gs.append(g)
     gs += c08.asm_groups(props=("C09",), prefix="c09")      # the backend the default build selects on this host
+    # every other assembly backend of the plain permutation (lifted): the same contract over the canonical view
+    gs += c08.riscv_groups(props=("C09",), prefix="c09") + c08.arm64_groups(props=("C09",), prefix="c09") + c08.xtensa_groups(props=("C09",), prefix="c09")
+    if tier == "thorough":
+        gs += c08.i386_groups(props=("C09",), prefix="c09") + c08.arm32_groups(props=("C09",), prefix="c09") + \
+              c08.m68k_groups(props=("C09",), prefix="c09") + c08.avr_groups(props=("C09",), prefix="c09", rounds=(0, 6, 11))
     for cfg in ("C64", "C32", "DX"):
         gs += [g for g in common.xof_l2_groups("c09", ["C09"], cfg=cfg) if ("_init." in g.name + "." or "init_fixed.tables" in g.name) and "reinit" not in g.name]
     gs += common.kmac_table_groups("c09", ["C09"])
